@@ -198,18 +198,19 @@ Proof.
   apply (f0_cprod_in_prod fb HF). apply nth_In. exact Hj.
 Qed.
 
-Lemma ubi_In g : In g ubi <-> g < n /\ ~ In g c.
+Lemma ubi_In g : In g ubi <-> In g (fl_act fb) /\ ~ In g c.
 Proof.
-  unfold f0_ubi. rewrite filter_In, in_seq. rewrite negb_true_iff, memb_false. split; intros [H1 H2]; split; auto; lia.
+  unfold f0_ubi. rewrite filter_In. rewrite negb_true_iff, memb_false. reflexivity.
 Qed.
 
 Lemma ubi_nodup : NoDup ubi.
-Proof. unfold f0_ubi. apply NoDup_filter. apply seq_NoDup. Qed.
+Proof. unfold f0_ubi. apply NoDup_filter. apply (act_nodup fb HF). Qed.
 
-Lemma K_In g : In g K <-> g < n.
+(** the factors of a candidate are those of [act_design] *)
+Lemma K_In g : In g K <-> In g (fl_act fb).
 Proof.
   rewrite in_app_iff, ubi_In. split.
-  - intros [H | [H _]]; [apply (f0_range fb (f0_unpack fb HF)); exact H | exact H].
+  - intros [H | [H _]]; [apply (f0_cact_main fb HF); exact H | exact H].
   - intros H. destruct (in_dec Nat.eq_dec g c); [left; assumption | right; split; assumption].
 Qed.
 
